@@ -618,7 +618,6 @@ Section Canon.
          | E : pname ?a = pname ?b, Sa : is_sup ?a = false, Sb : is_sup ?b = true |- _ =>
              assert (a = b) by (apply (pname_inj ports); auto); subst; congruence
          end).
-    - (* two dummy -> demand arcs with the same endpoints *) subst. reflexivity.
   Qed.
 
   (* the requests issued by the three arc procedures on the state reached after the add_nodes phase *)
@@ -726,3 +725,208 @@ Section Canon.
     intros x y Hx Hy K. apply c_reqs_spec in Hx. apply c_reqs_spec in Hy. apply spec_arc_functional; auto.
   Qed.
 End Canon.
+
+(* ---------- assembling the canonical build ---------- *)
+Lemma mrun_app A B s : mrun (A ++ B) s = mrun B (mrun A s).
+Proof. unfold mrun. apply fold_left_app. Qed.
+Lemma mtrace_app A : forall B s, mtrace (A ++ B) s = mtrace A s ++ mtrace B (mrun A s).
+Proof. induction A as [|o A IH]; intros B s; simpl; auto. rewrite IH. reflexivity. Qed.
+Lemma mrun3 o1 o2 o3 s : mrun [o1; o2; o3] s = fst (mstep (fst (mstep (fst (mstep s o1)) o2)) o3).
+Proof. reflexivity. Qed.
+Lemma mtrace3 o1 o2 o3 s :
+  mtrace [o1; o2; o3] s = [snd (mstep s o1); snd (mstep (fst (mstep s o1)) o2);
+                           snd (mstep (fst (mstep (fst (mstep s o1)) o2)) o3)].
+Proof. reflexivity. Qed.
+Lemma ports_of_map ports : ports_of (map op_of ports) = map pname ports.
+Proof. induction ports as [|p ports IH]; simpl; auto. rewrite IH. reflexivity. Qed.
+
+Lemma visit_present size H ports p k :
+  In p ports -> (k < pK size H p)%nat -> has_name (NVisit (pname p) k) (nodes_after size H ports) = true.
+Proof.
+  intros Hp Hk. apply has_name_In. rewrite nodes_after_names. right. apply in_flat_map.
+  exists p. split; auto. apply in_vnames. eauto.
+Qed.
+Lemma depot_present size H ports : has_name NDepot (nodes_after size H ports) = true.
+Proof. reflexivity. Qed.
+Lemma dum_fresh size H ports i : has_name (NDum i) (nodes_after size H ports) = false.
+Proof.
+  destruct (has_name (NDum i) (nodes_after size H ports)) eqn:E; auto.
+  apply has_name_In in E. rewrite nodes_after_names in E. destruct E as [E|E]; [discriminate|].
+  apply in_flat_map in E. destruct E as [p [_ Hx]]. apply in_vnames in Hx. destruct Hx as [k [_ Ek]]. discriminate.
+Qed.
+
+Lemma travel_reqs_present l pm dist speed unit fs fd sps dps :
+  (forall p v, In p (sps ++ dps) -> In v (getl (pm_get p pm)) -> has_name v l = true) ->
+  forall x, In x (travel_reqs pm dist speed unit fs fd sps dps) -> present l x.
+Proof.
+  intros Hv x Hx. unfold travel_reqs in Hx. apply in_flat_map in Hx. destruct Hx as [sp [Hsp Hx]].
+  apply in_flat_map in Hx. destruct Hx as [dp [Hdp Hx]]. unfold travel_reqs_pair in Hx.
+  apply in_pair_reqs in Hx. destruct Hx as [sn [dn [Hin Hx]]]. apply in_prod_iff in Hin. destruct Hin as [A B].
+  assert (Ps : has_name sn l = true) by (apply (Hv sp); auto; apply in_app_iff; auto).
+  assert (Pd : has_name dn l = true) by (apply (Hv dp); auto; apply in_app_iff; auto).
+  destruct Hx as [->| ->]; split; auto.
+Qed.
+Lemma exit_reqs_present l pm ports tm c :
+  has_name NDepot l = true ->
+  (forall p v, In p ports -> In v (getl (pm_get p pm)) -> has_name v l = true) ->
+  forall x, In x (exit_reqs pm ports tm c) -> present l x.
+Proof.
+  intros Hd Hv x Hx. unfold exit_reqs in Hx. apply in_flat_map in Hx. destruct Hx as [p [Hp Hx]].
+  apply in_map_iff in Hx. destruct Hx as [v [<- Hin]]. split; cbn [rkey fst snd]; auto. apply (Hv p); auto.
+Qed.
+Lemma entry_s_reqs_present l pm ports limit tm c :
+  has_name NDepot l = true ->
+  (forall p v, In p ports -> In v (getl (pm_get p pm)) -> has_name v l = true) ->
+  forall x, In x (entry_s_reqs l pm ports limit tm c) -> present l x.
+Proof.
+  intros Hd Hv x Hx. unfold entry_s_reqs in Hx. apply in_flat_map in Hx. destruct Hx as [p [Hp Hx]].
+  apply in_map_iff in Hx. destruct Hx as [v [<- Hin]]. apply filter_In in Hin. destruct Hin as [Hin _].
+  split; cbn [rkey fst snd]; auto. apply (Hv p); auto.
+Qed.
+
+Definition canonical_ops ports dist speed unit fs fd etm ec limit ntm nc : list mop :=
+  map op_of ports ++ [AddTravelArcs dist speed unit fs fd; AddExitArcs etm ec; AddEntryArcs limit ntm nc].
+
+(* every (supply port, demand port) pair has a distance and both ports have a fee *)
+Definition tables_complete (ports : list pdata) (dist : list ((nat * nat) * Q)) (fs fd : list (nat * Q)) : Prop :=
+  forall sp dp, In sp ports -> is_sup sp = true -> In dp ports -> is_sup dp = false ->
+    lookup2 (pname sp) (pname dp) dist <> None /\ lookup (pname sp) fs <> None /\ lookup (pname dp) fd <> None.
+
+Theorem canonical_build size H ports dist speed unit fs fd etm ec limit ntm nc :
+  0 < size -> ports_ok size ports -> ~ speed == 0 -> tables_complete ports dist fs fd ->
+  let ops := canonical_ops ports dist speed unit fs fd etm ec limit ntm nc in
+  let g := gr (mrun ops (init_state size H)) in
+  mtrace ops (init_state size H)
+    = map (fun p => Ok (Some (p_vnames size H p))) ports ++ [Ok None; Ok None; Ok None] /\
+  mnodes g = nodes_after size H ports ++ dum_nodes size 0 (length (c_early size H ports limit)) /\
+  exists pm, (forall p, In p ports -> pm_get (pname p) pm = Some (p_vnames size H p)) /\
+             AI g (c_reqs size H ports dist speed unit fs fd etm ec limit ntm nc pm).
+Proof.
+  intros Hs [ND Hp] Hv Ht ops g.
+  set (s1 := mrun (map op_of ports) (init_state size H)).
+  destruct (phase_run size H ports [] (init_state size H) Hs (PI_init size H)) as [I1 T1]; auto.
+  fold s1 in I1. simpl app in I1.
+  destruct I1 as [N1 [Ar1 [Sp1 [Dp1 [Pm1 [Cs1 Hz1]]]]]].
+  set (l := nodes_after size H ports) in *.
+  set (pm := pmap s1) in *.
+  set (R := c_reqs size H ports dist speed unit fs fd etm ec limit ntm nc pm).
+  assert (FR : functional R) by (apply c_reqs_functional; auto).
+  assert (G1 : GInv size (gr s1)).
+  { apply graph_invariant; auto. rewrite ports_of_map. auto. }
+  assert (A1 : AI (gr s1) []).
+  { destruct G1 as [_ [NDn _]]. split; [auto|]. rewrite Ar1. split; [constructor|].
+    split; [intros k a []|]. split; [intros x []|].
+    intros [[[o d] tm] c]. unfold has_arc. rewrite Ar1. split.
+    - intros [i [j [_ [_ E]]]]. discriminate.
+    - intros [[] _]. }
+  (* names listed in port_mapping are nodes *)
+  assert (PV : forall p v, In p (sup_names ports ++ dem_names ports) -> In v (getl (pm_get p pm)) -> has_name v l = true).
+  { intros n v Hn Hin. apply in_app_iff in Hn.
+    assert (exists p, In p ports /\ pname p = n) as [p [P1 <-]].
+    { destruct Hn as [Hn|Hn]; [apply in_sup_names in Hn | apply in_dem_names in Hn]; destruct Hn as [p [A [_ B]]]; eauto. }
+    rewrite (Pm1 p P1) in Hin. cbn [getl] in Hin. apply in_vnames in Hin. destruct Hin as [k [Hk ->]].
+    apply visit_present; auto. }
+  assert (PN : forall p, In p (sup_names ports ++ dem_names ports) -> pm_get p pm <> None).
+  { intros n Hn. apply in_app_iff in Hn.
+    assert (exists p, In p ports /\ pname p = n) as [p [P1 <-]].
+    { destruct Hn as [Hn|Hn]; [apply in_sup_names in Hn | apply in_dem_names in Hn]; destruct Hn as [p [A [_ B]]]; eauto. }
+    rewrite (Pm1 p P1). discriminate. }
+  set (Rt := travel_reqs pm dist speed unit fs fd (sup_names ports) (dem_names ports)) in *.
+  set (Re := exit_reqs pm (sup_names ports ++ dem_names ports) etm ec) in *.
+  set (Rs := entry_s_reqs l pm (sup_names ports) limit ntm nc) in *.
+  set (Rd := dum_reqs 0 (early_list l pm (dem_names ports) limit) ntm nc) in *.
+  assert (RE : R = Rt ++ Re ++ Rs ++ Rd) by reflexivity.
+  (* 1. travel arcs *)
+  assert (TO : tables_ok pm dist speed fs fd (sup_names ports) (dem_names ports)).
+  { split; [auto|]. split; [auto|]. intros sp dp Hsp Hdp.
+    apply in_sup_names in Hsp. destruct Hsp as [p [P1 [P2 <-]]].
+    apply in_dem_names in Hdp. destruct Hdp as [q [Q1 [Q2 <-]]]. apply Ht; auto. }
+  destruct (arcs_seq_AI Rt (gr s1) [] A1) as [g2 [E2 [N2 A2]]].
+  { simpl. eapply functional_incl; [|exact FR]. rewrite RE. intros x Hx. apply in_app_iff. auto. }
+  { rewrite N1. apply travel_reqs_present. auto. }
+  simpl app in A2.
+  (* 2. exit arcs *)
+  destruct (arcs_seq_AI Re g2 Rt A2) as [g3 [E3 [N3 A3]]].
+  { eapply functional_incl; [|exact FR]. rewrite RE. intros x Hx. rewrite !in_app_iff in *. tauto. }
+  { rewrite N2, N1. apply exit_reqs_present; auto. }
+  (* 3. entry arcs to supply visits *)
+  destruct (arcs_seq_AI Rs g3 (Rt ++ Re) A3) as [g4 [E4 [N4 A4]]].
+  { eapply functional_incl; [|exact FR]. rewrite RE. intros x Hx. rewrite !in_app_iff in *. tauto. }
+  { rewrite N3, N2, N1. apply entry_s_reqs_present; auto. intros p v A B. apply (PV p v); auto. apply in_app_iff. auto. }
+  (* 4. dummy vessels *)
+  destruct (entry_d_ports_AI size limit ntm nc l pm (dem_names ports) g4 ((Rt ++ Re) ++ Rs) 0%nat A4) as [g5 [E5 [N5 A5]]].
+  { rewrite N4, N3, N2, N1. apply next_refl. }
+  { intros p A. apply PN. apply in_app_iff. auto. }
+  { intros p v A B. apply (PV p v); auto. apply in_app_iff. auto. }
+  { reflexivity. }
+  { intros i _. rewrite N4, N3, N2, N1. apply dum_fresh. }
+  { fold Rd. rewrite <- !app_assoc. rewrite <- RE. exact FR. }
+  fold Rd in A5. rewrite <- !app_assoc in A5. rewrite <- RE in A5.
+  (* the three calls, as the model runs them *)
+  assert (S2 : mstep s1 (AddTravelArcs dist speed unit fs fd) = (set_gr s1 g2, Ok None)).
+  { cbn [mstep]. unfold add_travel_arcs. fold pm. rewrite Sp1, Dp1.
+    rewrite (travel_s_eq pm dist speed unit fs fd (dem_names ports) (sup_names ports) (gr s1) TO).
+    fold Rt. rewrite E2. reflexivity. }
+  assert (S3 : mstep (set_gr s1 g2) (AddExitArcs etm ec) = (set_gr s1 g3, Ok None)).
+  { cbn [mstep]. unfold add_exit_arcs. cbn [set_gr gr pmap sports dports]. fold pm. rewrite Sp1, Dp1.
+    assert (DN : depot_name g2 = NDepot) by (unfold depot_name; rewrite N2, N1; reflexivity).
+    rewrite DN. rewrite (exit_ports_eq pm etm ec (sup_names ports ++ dem_names ports) g2 PN).
+    fold Re. rewrite E3. reflexivity. }
+  assert (S4 : mstep (set_gr s1 g3) (AddEntryArcs limit ntm nc) = (set_gr s1 g5, Ok None)).
+  { cbn [mstep]. unfold add_entry_arcs. cbn [set_gr gr pmap sports dports csize]. fold pm. rewrite Sp1, Dp1, Cs1.
+    assert (DN : depot_name g3 = NDepot) by (unfold depot_name; rewrite N3, N2, N1; reflexivity).
+    rewrite DN.
+    rewrite (entry_s_ports_eq l pm limit ntm nc (sup_names ports) g3).
+    - fold Rs. rewrite E4. rewrite E5. reflexivity.
+    - rewrite N3, N2, N1. reflexivity.
+    - intros p A. apply PN. apply in_app_iff. auto.
+    - intros p v A B. apply (PV p v); auto. apply in_app_iff. auto. }
+  assert (RUN : mrun ops (init_state size H) = set_gr s1 g5 /\
+                mtrace ops (init_state size H)
+                = map (fun p => Ok (Some (p_vnames size H p))) ports ++ [Ok None; Ok None; Ok None]).
+  { unfold ops, canonical_ops. rewrite mrun_app, mtrace_app. fold s1. rewrite T1. split.
+    - rewrite mrun3. rewrite S2. cbn [fst]. rewrite S3. cbn [fst]. rewrite S4. reflexivity.
+    - f_equal. rewrite mtrace3. rewrite S2. cbn [fst snd]. rewrite S3. cbn [fst snd]. rewrite S4. reflexivity. }
+  destruct RUN as [RUN TR]. split; [exact TR|].
+  subst g. rewrite RUN. cbn [set_gr gr]. split.
+  - rewrite N5, N4, N3, N2, N1. subst l.
+    rewrite (early_list_eq size H ports limit pm); auto.
+  - exists pm. split; auto.
+Qed.
+
+Theorem arcset_final size H ports dist speed unit fs fd etm ec limit ntm nc :
+  0 < size -> ports_ok size ports -> ~ speed == 0 -> tables_complete ports dist fs fd ->
+  let ops := canonical_ops ports dist speed unit fs fd etm ec limit ntm nc in
+  let g := gr (mrun ops (init_state size H)) in
+  mtrace ops (init_state size H)
+    = map (fun p => Ok (Some (p_vnames size H p))) ports ++ [Ok None; Ok None; Ok None] /\
+  mnodes g = nodes_after size H ports ++ dum_nodes size 0 (length (c_early size H ports limit)) /\
+  NoDup (map fst (marcs g)) /\
+  (forall k a, In (k, a) (marcs g) ->
+     pos_of (aorig a) (mnodes g) = Some (fst k) /\ pos_of (adest a) (mnodes g) = Some (snd k) /\
+     has_arc g (aorig a, adest a, att a, acost a)) /\
+  (forall x, has_arc g x <->
+             spec_arc size H ports dist speed unit fs fd etm ec limit ntm nc x /\ passes (mnodes g) x) /\
+  (forall p k, In p ports -> (k < pK size H p)%nat -> has_arc g (NVisit (pname p) k, NDepot, etm, ec)).
+Proof.
+  intros Hs Hok Hv Ht ops g.
+  destruct (canonical_build size H ports dist speed unit fs fd etm ec limit ntm nc Hs Hok Hv Ht)
+    as [TR [N [pm [PM A]]]].
+  fold ops in TR, N, A. fold g in N, A.
+  destruct Hok as [ND Hp].
+  destruct A as [NDn [NK [FI [PR HA]]]].
+  assert (SPEC : forall x, has_arc g x <->
+             spec_arc size H ports dist speed unit fs fd etm ec limit ntm nc x /\ passes (mnodes g) x).
+  { intro x. rewrite HA. rewrite (c_reqs_spec size H ports dist speed unit fs fd etm ec limit ntm nc pm PM x). tauto. }
+  split; [exact TR|]. split; [exact N|]. split; [exact NK|]. split; [|split; [exact SPEC|]].
+  - intros k a Hin. destruct (FI k a Hin) as [A B]. split; [auto|]. split; [auto|].
+    exists (fst k), (snd k). cbn [rkey fst snd]. split; [auto|]. split; [auto|].
+    rewrite <- surjective_pairing. rewrite (In_dict_get k a (marcs g) NK Hin). destruct a; reflexivity.
+  - intros p k Hin Hk. apply SPEC. split; [apply SA_exit; auto|].
+    assert (Pv : has_name (NVisit (pname p) k) (mnodes g) = true).
+    { rewrite N, has_name_app, visit_present; auto. }
+    destruct (pos_of_has _ _ Pv) as [i Ei].
+    exists (nth i (mnodes g) dummy_mnode), depot_node. cbn [rkey fst snd].
+    split; [unfold find_node; rewrite Ei; reflexivity|]. split; [rewrite N; reflexivity|].
+    reflexivity.
+Qed.
